@@ -169,7 +169,7 @@ const LOCAL_NAMES: &[&str] = &["v", "w", "cur", "acc", "tmp", "something", "none
 const ATTR_NAMES: &[&str] = &["a", "b", "c", "kind", "name", "idx", "flag", "x-y", "text", "n"];
 const STRS: &[&str] = &["", "a", "b", "ab", "foo/bar.py", "x{}y", "é", "a b", "{{}}", "$1"];
 const SCAN_SUBJECTS: &[&str] = &["ab/ba.py", "aab", "foo/bar.py", "abab", "xa1é2", "a/b/c.py", "é", "a", "b12"];
-pub const REGEXES: &[&str] = &["a", "[ab]+", "b|ab", "(a)(b)?", "[^/]+/", "([a-z]+)\\.py$", "é", ".", "(x)|(a)", "a+b*", "\\d+", "(?:ab)+", "b$"];
+pub const REGEXES: &[&str] = &["a", "[ab]+", "b|ab", "(a)(b)?", "[^/]+/", "([a-z]+)\\.py$", "é", ".", "(x)|(a)", "a+b*", "\\d+", "(?:ab)+", "b$", "(x)?([ab])", "([0-9]+)|([a-z]+)", "(a)(/)?(b)?", "\\b", "\\b[a-z]*"];
 
 struct G<'t, 'b> {
     t: &'t mut Tape<'b>,
@@ -1062,10 +1062,21 @@ impl<'t, 'b> G<'t, 'b> {
                     let saved = self.regex_groups.replace(groups);
                     self.push_frame();
                     self.loop_depth += 1;
-                    let body = self.block(depth + 1);
+                    let mut body = self.block(depth + 1);
                     self.loop_depth -= 1;
                     self.pop_frame();
                     self.regex_groups = saved;
+                    // half of the arms with groups record every group on a fresh node, so that the
+                    // binding of `$1..$n` (absent groups included) shows in the graph
+                    if groups > 0 && !self.in_shorthand_body && self.t.chance(1, 2) {
+                        let g = self.fresh_name("grp");
+                        let mut rec = vec![Stmt::Node { id: self.id(), var: VarRef::Plain { id: self.id(), name: g.clone() } }];
+                        let attrs = (0..=groups).map(|k| Attr { name: format!("g{}", k), value: Some(Expr::RegexCap(k)) }).collect();
+                        rec.push(Stmt::AttrNode { id: self.id(), node: Expr::Var { id: self.id(), name: g }, attrs });
+                        rec.extend(body);
+                        body = rec;
+                        self.features.insert("scan-groups-recorded");
+                    }
                     arms.push(ScanArm { regex, body });
                 }
                 self.features.insert("scan");
@@ -1450,7 +1461,9 @@ impl<'t, 'b> G<'t, 'b> {
                 Stmt::If { id, arms: vec![IfArm { id: self.id(), conds: vec![Cond::Bool(self.id(), Expr::True)], body }] }
             }
             "undefined-edge" => {
-                let other = Expr::Call { func: "node".into(), args: vec![] };
+                // towards a fresh node, or towards another node that exists already
+                let existing = if self.t.chance(1, 2) { self.pick_target(false).map(|t| t.0) } else { None };
+                let other = existing.unwrap_or(Expr::Call { func: "node".into(), args: vec![] });
                 Stmt::AttrEdge { id, src: target, dst: other, attrs: vec![Attr { name: "f".into(), value: Some(Expr::Int(1, 0)) }] }
             }
             "undefined-scoped" => match self.syn_expr(false) {
@@ -1552,6 +1565,43 @@ impl<'t, 'b> G<'t, 'b> {
 }
 
 impl<'t, 'b> G<'t, 'b> {
+    /// Three stanzas on the same kind of node: one stores a graph node on it, two others give that
+    /// graph node the same attribute - equal values are fine, different ones (one of them may be
+    /// `#null`) make the run fail in every stanza order.
+    fn attr_idiom(&mut self) -> Vec<Stanza> {
+        const KINDS: &[&str] = &["(identifier) @", "(call) @", "(module) @", "(expression_statement) @", "(pass_statement) @"];
+        let kind = KINDS[self.t.choose(KINDS.len())];
+        let name = self.fresh_name("an");
+        let values = [Expr::Null, Expr::Str("v".into()), Expr::Int(1, 0), Expr::True, Expr::Str("".into())];
+        let mk = |g: &mut Self, c: &str, body: Vec<Stmt>| Stanza { id: g.id(), query: format!("{}{}", kind, c), captures: vec![Cap { name: c.to_string(), quant: Quant::One }], body, pool: usize::MAX };
+        let sc = |g: &mut Self, c: &str, n: &str| {
+            let scope = Box::new(Expr::Capture { id: g.id(), name: c.to_string() });
+            Expr::Scoped { id: g.id(), scope, name: n.to_string() }
+        };
+        let def = Stmt::Node { id: self.id(), var: VarRef::Scoped { id: self.id(), scope: Expr::Capture { id: self.id(), name: "x".into() }, name: name.clone() } };
+        let mut out = vec![mk(self, "x", vec![def])];
+        let first = self.t.choose(values.len());
+        for (i, c) in ["y", "z"].iter().enumerate() {
+            // mostly the same value twice
+            let v = if i == 1 && self.t.chance(1, 2) { values[first].clone() } else { values[self.t.choose(values.len())].clone() };
+            let v = if i == 0 { values[first].clone() } else { v };
+            let node = sc(self, c, &name);
+            let st = Stmt::AttrNode { id: self.id(), node, attrs: vec![Attr { name: "shared".into(), value: Some(v) }] };
+            out.push(mk(self, c, vec![st]));
+        }
+        // a fourth stanza holds the stored node in a local and prints it (or a call on it)
+        if self.cfg.prints && self.t.chance(1, 2) {
+            let read = sc(self, "p", &name);
+            let held = self.fresh_name("held");
+            let shown = if self.t.chance(1, 2) { Expr::Var { id: self.id(), name: held.clone() } } else { Expr::Call { func: "is-null".into(), args: vec![Expr::Var { id: self.id(), name: held.clone() }] } };
+            let body = vec![Stmt::Let { id: self.id(), var: VarRef::Plain { id: self.id(), name: held }, value: read }, Stmt::Print { id: self.id(), values: vec![shown] }];
+            out.push(mk(self, "p", body));
+            self.features.insert("print-of-a-local-holding-a-scoped-value");
+        }
+        self.features.insert("one-attribute-from-two-stanzas");
+        out
+    }
+
     /// Three stanzas: graph nodes stored on outer syntax nodes under inherited names, an edge
     /// between them created from an inner node (reached through inheritance), and an attribute
     /// put on that edge from the outer node again.  Lazy evaluation visits the outer node's
@@ -1851,6 +1901,14 @@ pub fn generate(t: &mut Tape, cfg: &GenCfg) -> Generated {
         tries += 1;
         if let Some(s) = g.stanza() {
             stanzas.push(Item::Stanza(s));
+        }
+    }
+    if cfg.edge_idiom && g.t.chance(1, 6) {
+        let extra = g.attr_idiom();
+        let mut at: Vec<usize> = (0..extra.len()).map(|_| g.t.choose(stanzas.len() + 1)).collect();
+        at.sort();
+        for (k, (pos, st)) in at.into_iter().zip(extra.into_iter()).enumerate() {
+            stanzas.insert(pos + k, Item::Stanza(st));
         }
     }
     if cfg.edge_idiom && g.t.chance(1, 4) {
